@@ -33,6 +33,9 @@ pub enum Dev {
     /// the same, but the dedicated constraint is the FIRST call on both roles and names the
     /// commitments through hand-built handles before they exist (forward references)
     CommittedCoefForward(Option<usize>, S),
+    /// the verifier's FIRST call is a constraint `d * C_w = 0` naming commitment w before it
+    /// exists; the prover's first call is the vacuous constraint `0 = 0` (coefficient 0 vs d)
+    CommittedTermForwardOnly(usize, S),
     /// dedicated constraint with EQUAL coefficients on all commitments; the
     /// verifier's coefficient j >= 1 is off by k * 2^64 (same low 64 bits)
     CommittedCoefLow64(usize, u8),
@@ -68,6 +71,7 @@ impl Dev {
             Dev::CommittedCoef(None, _) => "F7-committed-constant-changed",
             Dev::CommittedCoefForward(Some(_), _) => "F7-committed-coefficient-changed(constraint precedes the commitments)",
             Dev::CommittedCoefForward(None, _) => "F7-committed-constant-changed(constraint precedes the commitments)",
+            Dev::CommittedTermForwardOnly(..) => "F7-committed-term-added(verifier only, constraint precedes the commitment)",
             Dev::CommittedCoefLow64(..) => "F7-committed-coefficient-plus-multiple-of-2^64",
             Dev::TLabel(_) => "F7-transcript-label",
             Dev::PreDrop(_) => "F7-precontext-dropped",
@@ -349,6 +353,18 @@ fn apply_dev<G: AffineRepr>(
                 p2.ops.push(mk(None));
                 v2.ops.push(mk(Some((*which, d))));
             }
+            Some((p2, v2, id, true))
+        }
+        Dev::CommittedTermForwardOnly(w, d) => {
+            let d_f: G::ScalarField = d.f();
+            let vals: Vec<G::ScalarField> = base.ops.iter().filter_map(|op| if let Op::Commit { v, .. } = op { Some(v.f()) } else { None }).collect();
+            if *w >= m || d_f == G::ScalarField::from(0u64) || vals[*w] == G::ScalarField::from(0u64) {
+                return None;
+            }
+            let mut p2 = base.clone();
+            let mut v2 = base.clone();
+            p2.ops.insert(0, Op::Constrain(Expr::K(S::U(0))));
+            v2.ops.insert(0, Op::Constrain(Expr::scale(Expr::Raw(VK::C(*w)), Coef::Lit(d.clone()))));
             Some((p2, v2, id, true))
         }
         Dev::CommittedCoefLow64(j, k) => {
@@ -638,6 +654,7 @@ pub fn gen_dev(rng: &mut Rng, base: &SessionCase, kn: &gen::Knobs) -> Dev {
             }
             7 if !cons.is_empty() => Dev::Constant(*pick(rng, &cons), d()),
             8 if m > 1 && chance(rng, 1, 2) => Dev::CommittedCoefLow64(1 + below(rng, m - 1), (rng.next_u32() % 3) as u8),
+            8 | 9 if m > 0 && chance(rng, 1, 4) => Dev::CommittedTermForwardOnly(below(rng, m), gen_scalar_nonzero::<ark_secq256k1::Fr>(rng)),
             8 | 9 if m > 0 && chance(rng, 1, 3) => Dev::CommittedCoefForward(if chance(rng, 1, 2) { Some(below(rng, m)) } else { None }, gen_scalar_nonzero::<ark_secq256k1::Fr>(rng)),
             8 | 9 if m > 0 => Dev::CommittedCoef(if chance(rng, 1, 2) { Some(below(rng, m)) } else { None }, gen_scalar_nonzero::<ark_secq256k1::Fr>(rng)),
             10 => Dev::TLabel((st.tlabel + 1 + below(rng, TLABELS.len() - 1)) % TLABELS.len()),
